@@ -200,27 +200,16 @@ func c08HasMulRight(n *parser.ASTNode) bool {
 			return false
 		}
 		r := x.Children[1]
-		return (r.Name == parser.NodeTIMES || r.Name == parser.NodeDIV) && len(r.Children) == 2
-	})
-}
-
-// c08MulImpure: the spliced chain contains // or % (then the value may change — `7 * ((3 % 2) / 2)` ≠
-// `((7 * 3) % 2) / 2`; a pure chain of * and / keeps its value up to rounding)
-func c08MulImpure(n *parser.ASTNode) bool {
-	return c08Any(n, func(x *parser.ASTNode) bool {
-		if x.Name != parser.NodeTIMES || len(x.Children) != 2 || x.Children[1] == nil {
-			return false
-		}
-		r := x.Children[1]
 		if (r.Name != parser.NodeTIMES && r.Name != parser.NodeDIV) || len(r.Children) != 2 {
 			return false
 		}
+		// the brackets are only left out for a pure chain of * and / (fix C08-product-chain-brackets)
 		for c := r; c != nil && c08Mul120(c.Name) && len(c.Children) == 2; c = c.Children[0] {
 			if c.Name == parser.NodeDIVINT || c.Name == parser.NodeMODINT {
-				return true
+				return false
 			}
 		}
-		return false
+		return true
 	})
 }
 
@@ -791,11 +780,11 @@ func c08Run(payload string) string {
 		// error or has side effects, which error is raised / in which order the effects happen may differ.
 		// Behaviour is demanded there only if the original evaluates to a value without error, side effect or log.
 		mulFree := rt == "diff" && c08HasMulRight(ast) && !(strings.HasPrefix(orig, "v:") && strings.HasSuffix(orig, "||"))
-		if c08RawInterp(ast) || (rt == "diff" && c08MulImpure(ast)) {
+		if c08RawInterp(ast) {
 			if same {
-				CountRun("known-value-change-shapes.behaviour-same")
+				CountRun("raw-with-interpolation.behaviour-same")
 			} else {
-				CountRun("known-value-change-shapes.behaviour-differs")
+				CountRun("raw-with-interpolation.behaviour-differs")
 			}
 		} else if mulFree {
 			if same {
